@@ -32,7 +32,7 @@ pub fn strategy_for(tier: Tier) -> BoxedStrategy<Case> {
     )
         .prop_map(move |(issue, ch, kb, second_claims, choices)| {
             let selection = selection_for(&issue, &ch, SelOpts { allow_null: false });
-            let kb = if issue.holder.is_some() { kb.map(|(aud, nonce)| KbArgs { aud, nonce, key: issue.holder }) } else { None };
+            let kb = if issue.holder.is_some() { kb.map(|(aud, nonce)| KbArgs { default_alg: nonce.chars().count() % 2 == 1, aud, nonce, key: issue.holder }) } else { None };
             C02Case { issue, selection, kb, second_claims, choices, all_positions: all }
         })
         .boxed()
